@@ -861,7 +861,19 @@ func checkC19(c *Ctx) {
 		var fields, hist, got []string
 		text := pick(c.R, msgPool) + strconv.Itoa(c.R.Intn(10))
 		var leaf error
-		switch c.R.Intn(4) {
+		switch c.R.Intn(5) {
+		case 4:
+			// a cause that is not a NestedError itself but wraps one (an earlier diagnostic passed on with %w, or a custom
+			// Unwrap error): Original() stops at the cause, it does not look through the cause's own chain
+			inner := &parser.NestedError{Err: errors.New("root"), Msg: "earlier"}
+			inner.Set(parser.ErrVals{"k": 1})
+			if c.R.Chance(1, 2) {
+				leaf = fmt.Errorf("while retrying: %w", inner)
+			} else {
+				leaf = &wrapErr{inner}
+			}
+			text = leaf.Error()
+			c.count("cause_that_wraps_a_nested_error")
 		case 0:
 			leaf = fmt.Errorf("ctx: %w", errors.New("deep"))
 			text = leaf.Error()
